@@ -446,6 +446,7 @@ class Skel:
         if th or el:
             # the call whose value the condition tests (possibly negated / compared with 0), for inlined helpers
             q, pol = c, True
+            cmp0 = False
             while True:
                 qn = F.ex[q]
                 if qn['k'] == 'un' and qn['op'] == '!':
@@ -454,10 +455,15 @@ class Skel:
                         and F.ex[F.strip_casts(qn['c'][1])]['v'] == 0:
                     pol = pol if qn['op'] == '!=' else not pol
                     q = F.strip_casts(qn['c'][0])
+                    cmp0 = True
                 else:
                     break
             tested = (q, pol) if F.ex[q]['k'] == 'call' else None
-            return ci + [('I', self.canon(F, cond), th, el, c, tested)]
+            # `x != 0` is `x`, `x == 0` is `!x`: one canonical text for both spellings
+            ctext = self.canon(F, cond)
+            if cmp0:
+                ctext = self.canon(F, q) if pol else '!' + self.canon(F, q)
+            return ci + [('I', ctext, th, el, c, tested)]
         return ci
 
     def _has_access(self, F, e):
